@@ -52,8 +52,8 @@ mut("add_edge_undirected_dup_orientation", "src/graph/query.rs",
     "        let (ordered_u, ordered_v) = match !self.specs.directed && u > v {\n            false => (u, v),\n            true => (v, u),\n        };\n\n        match self.edges_map.get(&ordered_u) {\n            None => Err(Error {\n                kind: ErrorKind::EdgeNotFound,\n                message: format!(\"The requested edge ({}, {}) does not exist.\", u, v),\n            }),\n            Some(edges) => match edges.get(&ordered_v) {\n                None => Err(Error {\n                    kind: ErrorKind::EdgeNotFound,\n                    message: format!(\"The requested edge ({}, {}) does not exist.\", u, v),\n                }),\n                Some(e) => Ok(&e[0]),",
     "        let (ordered_u, ordered_v) = match !self.specs.directed && u > v && self.nodes_vec[u].name > self.nodes_vec[v].name {\n            false => (u, v),\n            true => (v, u),\n        };\n\n        match self.edges_map.get(&ordered_u) {\n            None => Err(Error {\n                kind: ErrorKind::EdgeNotFound,\n                message: format!(\"The requested edge ({}, {}) does not exist.\", u, v),\n            }),\n            Some(edges) => match edges.get(&ordered_v) {\n                None => Err(Error {\n                    kind: ErrorKind::EdgeNotFound,\n                    message: format!(\"The requested edge ({}, {}) does not exist.\", u, v),\n                }),\n                Some(e) => Ok(&e[0]),", ["C01", "C02"])
 mut("batch_add_continues_after_error", "src/graph/creation.rs",
-    "        for edge in edges {\n            self.add_edge(edge)?;\n        }\n        Ok(())\n    }\n\n    pub fn add_edge_tuples",
-    "        let mut r = Ok(());\n        for edge in edges {\n            let x = self.add_edge(edge);\n            if r.is_ok() { r = x; }\n        }\n        r\n    }\n\n    pub fn add_edge_tuples", ["C01"])
+    "        for edge in edges {\n            self.add_edge(edge)?;\n        }\n        Ok(())\n    }",
+    "        let mut r = Ok(());\n        for edge in edges {\n            let x = self.add_edge(edge);\n            if r.is_ok() { r = x; }\n        }\n        r\n    }", ["C01"])
 mut("missing_node_created_before_dup_error", "src/graph/creation.rs",
     "        // check for missing nodes\n        if self.specs.missing_node_strategy == MissingNodeStrategy::Error\n            && (!self.nodes_map.contains_key(&edge.u) || !self.nodes_map.contains_key(&edge.v))",
     "        // check for missing nodes\n        if self.specs.missing_node_strategy == MissingNodeStrategy::Error\n            && (!self.nodes_map.contains_key(&edge.u) && !self.nodes_map.contains_key(&edge.v))", ["C01"])
